@@ -95,6 +95,7 @@ def run(prog, chk):
     chk.defer(legacy_id_table, prog, chk)
     chk.defer(signature_structure_table, prog, chk)
     chk.defer(_run, prog, chk)
+    chk.defer(parser_chain_rule, prog, chk)
 
 
 def _run(prog, chk):
@@ -511,3 +512,27 @@ def legacy_id_table(prog, chk):
         chk.ob("C10.legacyid", "legacyId[%s]" % name, (r == 0) == want and isinstance(r, int),
                "%s: expected %s, source returns %s" % (" ".join("%02x" % b for b in bs[:8]) + (" ..." if len(bs) > 8 else ""), "accepted" if want else "refused",
                                                       hex(r) if isinstance(r, int) else r), loc=fn.loc(), fn=fn)
+
+
+def parser_chain_rule(prog, chk):
+    """The end-of-element checks (mandatory elements present, at-least-one groups non-empty) sit at the end of the element loop
+    (extractGenerator, judged by the scenario tables).  They hold for a parse only if every entry of the typed parser gets to them:
+    each link of the chain KSI_TlvTemplate_parse / _extract -> extract -> extractGenerator, and extractComposite -> extract for nested
+    elements, reports KSI_OK only on a path on which its delegate was called and reported KSI_OK (must-pass over CFG x status) - an
+    early success in front of the delegate (an element without children, say) accepts trees whose mandatory children are missing."""
+    from ksirules.flow import g_ok, ok_return_witness, path_lines
+    chk.rule("C10.chain", "every entry of the typed parser reports success only after the element loop ran and succeeded for that element "
+                          "(must-pass chain down to extractGenerator)", floor=4)
+    chain = (("KSI_TlvTemplate_parse", ("extract", "KSI_TlvTemplate_extract")), ("KSI_TlvTemplate_extract", ("extract",)), ("extract", ("extractGenerator",)),
+             ("extractComposite", ("extract",)))
+    for name, delegates in chain:
+        fn = prog.fn(name, "tlv_template.c")
+        called = [d for d in delegates if list(fn.calls(d))]
+        if not called:
+            chk.ob("C10.chain", name, False, "%s no longer calls %s: the element loop is not reached from this entry" % (name, " / ".join(delegates)), loc=fn.loc(), fn=fn)
+            continue
+        w = ok_return_witness(fn, guard=g_ok(lambda c, called=called: c.get("fn") in called))
+        chk.ob("C10.chain", name, w is None,
+               "KSI_OK is returned only on paths on which %s reported KSI_OK" % " / ".join(called) if w is None else
+               "a path returns KSI_OK without a successful call of %s: the end-of-element checks are skipped for that element" % " / ".join(called),
+               loc=fn.loc(), fn=fn, path=path_lines(fn, w) if w else None)
